@@ -52,11 +52,9 @@ pub mod valid {
                 _ => ()
             }
         }
-        // SAFETY: `bytes` here os obviously ASCII
-        Ok(match crate::percent_decode(bytes) {
-            Cow::Borrowed(b) => Cow::Borrowed(unsafe {std::str::from_utf8_unchecked(b)}),
-            Cow::Owned(b) => Cow::Owned(unsafe {String::from_utf8_unchecked(b)})
-        })
+        // `bytes` here is ASCII, but what its percent-escapes decode to may not be UTF-8 (`%FF`)
+        crate::percent_decode_utf8(bytes)
+            .map_err(|_| serde::de::Error::custom("invalid Cookie value"))
     }
 }
 
